@@ -91,6 +91,9 @@ MUTANTS = [
       "dropped restriction to the ancestral graph: colliders that are not ancestors of the query are married / joined"),
     M("a17", "ci", CI, "    keep = set(evidence_graph.nodes) - set(conditions)\n", "    keep = set(evidence_graph.nodes) & set(conditions) | {a, b}\n", ["C04", "C15"],
       "wrong set operation: only the conditioned nodes are kept"),
+    M("a20", "ci", CI, "    keep = graph.ancestors_inclusive(named)\n", "    keep = graph.ancestors_inclusive({a, b}) | conditions\n", ["C04"],
+      "ancestors of the endpoints only, the conditioned nodes added back without THEIR ancestors: a collider that is opened by a conditioned proper descendant "
+      "and is not itself an ancestor of a or b disappears (equivalent for C15 for the same reason as a01)"),
     M("b02", "ci", CI, "        combinations(vertices, 2),\n", "        combinations(sorted(vertices), 2),\n", EQ,
       "sorted vs unsorted pair enumeration: same pairs"),
     M("b03", "ci", CI, "        stop = None if max_conditions is None else max_conditions + 1\n", "        stop = max_conditions\n", ["C15"],
@@ -243,6 +246,9 @@ MUTANTS = [
     M("g32", "sigma", SIG, "        and (middle not in conditions or middle in conditions.intersection(sigma[left]))\n",
       "        and (middle not in conditions or middle in sigma[left])\n", EQ, "redundant intersection removed: middle is known to be in conditions on that branch"),
 
+    M("g33", "sigma", SIG, "        and bool(graph.descendants_inclusive(middle) & conditions)\n", "        and bool(graph.descendants_inclusive(middle) & conditions - {middle})\n", ["C20"],
+      "operator precedence: `-` binds tighter than `&`, so the collider itself no longer counts, only its proper descendants"),
+
     # =============================================================== graph.py, the operations of C14
     M("h01", "graph", GR, "        return self.from_edges(\n            nodes=vertices,\n", "        return self.from_edges(\n            nodes=None,\n", ["C14"],
       "subgraph: chosen nodes without an edge among them are dropped"),
@@ -343,6 +349,17 @@ MUTANTS = [
       "__eq__ compares the stored orientation of the bidirected edges (insertion-order dependent)"),
     M("h49", "graph", GR, "            isinstance(other, NxMixedGraph)\n            and self.nodes() == other.nodes()\n", "            self.nodes() == other.nodes()\n", OUT,
       "__eq__ without the isinstance test: comparing with a non-graph raises AttributeError instead of answering False; the property compares graphs with graphs"),
+    M("h50", "graph", GR, "        itt.chain.from_iterable(nx.algorithms.dag.ancestors(graph, source) for source in sources)\n",
+      "        itt.chain.from_iterable(nx.algorithms.dag.ancestors(graph, source) for source in list(sources)[:1])\n", ["C14"],
+      "wrong iteration target: ancestors of one member of the set only"),
+    M("h52", "graph", GR, "            for successor in self.directed.successors(node):\n                blanket.add(successor)\n",
+      "            for successor in self.directed.successors(node):\n                if successor in nodes:\n                    continue\n                blanket.add(successor)\n", EQ,
+      "children inside the query are skipped: they are removed from the result anyway and their parents are collected when they are visited as query nodes"),
+    M("h55", "graph", GR, "                (u.intervene(variables), v.intervene(variables))\n                for u, v in self.directed.edges()\n",
+      "                (u, v.intervene(variables))\n                for u, v in self.directed.edges()\n", ["C14"],
+      "intervene: the tail of a directed edge is not relabelled, plain copies of the nodes appear"),
+    M("h57", "graph", GR, "        if tc.has_edge(source, target):\n            rv.add(source)\n", "        if graph.has_edge(source, target):\n            rv.add(source)\n", ["C14"],
+      "stale variable (graph instead of its transitive closure): the endpoints of a path with two or more edges are not returned"),
     M("h46", "graph", GR, "        vertices = _ensure_set(vertices)\n        return self.from_edges(\n            nodes=self.nodes() - vertices,\n",
       "        vertices = _ensure_set(vertices)\n        self.directed.remove_nodes_from(vertices)\n        return self.from_edges(\n            nodes=self.nodes() - vertices,\n", ["C14"],
       "remove_nodes_from mutates the receiver (directed part only)"),
@@ -393,6 +410,8 @@ MUTANTS = [
       "subset vs proper subset: both latents of a duplicate pair are removed"),
     M("k28", "latent", LAT, "        if left_children == right_children and left > right:\n", "        if left_children == right_children and left < right:\n", OUT,
       "the other duplicate is kept: same projection"),
+    M("k50", "latent", LAT, "        elif left_children < right_children:\n", "        elif left_children > right_children:\n", ["C16"],
+      "< vs >: the latent with the LARGER child set is called redundant"),
     M("k31", "latent", LAT, "    return NxMixedGraph.from_latent_variable_dag(simplify_results.graph, tag=tag)\n", "    return NxMixedGraph.from_latent_variable_dag(lv_dag, tag=tag)\n", EQ,
       "the simplifier works in place: same object"),
     M("k37", "latent", LAT, "        parents = set(graph.predecessors(node))\n        if 0 == len(parents):\n",
@@ -511,6 +530,51 @@ def worker(k, queue, results, args, lock):
         shutil.rmtree(scratch, ignore_errors=True)
 
 
+def suite_worker(k, queue, results, args, lock):
+    """does the pinned 387-test suite (tools/baseline.py) kill the mutant?"""
+    scratch = Path(f"/tmp/mutA-{os.getpid()}-s{k}")
+    repo = scratch / "repo"
+    shutil.rmtree(scratch, ignore_errors=True)
+    scratch.mkdir(parents=True)
+    try:
+        r = sh("git", "clone", "-q", "--no-hardlinks", str(args.repo), str(repo))
+        if r.returncode != 0:
+            raise RuntimeError("clone failed: " + r.stderr)
+        while True:
+            with lock:
+                if not queue:
+                    break
+                m = queue.pop(0)
+            f = repo / m["file"]
+            src = f.read_text()
+            if src.count(m["old"]) != 1:
+                continue
+            try:
+                f.write_text(src.replace(m["old"], m["new"]))
+                t0 = time.time()
+                p = subprocess.Popen(["python3", str(VERIF / "tools" / "baseline.py"), str(repo)], stdout=subprocess.PIPE,
+                                     stderr=subprocess.STDOUT, text=True, start_new_session=True,
+                                     env=dict(os.environ, PYTHONDONTWRITEBYTECODE="1"))
+                try:
+                    out, _ = p.communicate(timeout=1500)
+                except subprocess.TimeoutExpired:
+                    os.killpg(p.pid, signal.SIGKILL)
+                    out, _ = p.communicate()
+                    out += "\nTIMEOUT"
+                mm = re.search(r"passed=(\d+) baseline=(\d+) baseline_missing=(\d+)", out)
+                rec = {"id": m["id"], "suite_kills": p.returncode != 0, "baseline_missing": int(mm.group(3)) if mm else None,
+                       "first_missing": [ln.strip()[8:] for ln in out.splitlines() if ln.strip().startswith("MISSING")][:3],
+                       "wall_s": round(time.time() - t0, 1)}
+                with lock:
+                    results.append(rec)
+                    print(f"{m['id']:5s} suite {'KILLS' if rec['suite_kills'] else 'survives'} missing={rec['baseline_missing']} "
+                          f"{rec['wall_s']}s {rec['first_missing'][:1]}", flush=True)
+            finally:
+                f.write_text(src)
+    finally:
+        shutil.rmtree(scratch, ignore_errors=True)
+
+
 def classify(rec, run):
     """one of: caught / corr-only / MISSED (property broken)  |  silent / corr-only / flagged (property not broken)"""
     broken = isinstance(rec["expect"], list) and run["prop"] in rec["expect"]
@@ -532,7 +596,8 @@ def summarise(results):
     return out
 
 
-def write_md(path, results, before=None):
+def write_md(path, results, before=None, suite=None):
+    suite = suite or {}
     props = ["C04", "C15", "C20", "C14", "C16"]
     lines = ["# Mutation campaign A (C04, C15, C20, C14, C16)", "",
              "Generated by `tools/mutants_A.py` (plain quick tier, `VERIF_NO_ESCALATE=1`, seed 0). One hand-written one-site mutant of y0 at a",
@@ -565,18 +630,20 @@ def write_md(path, results, before=None):
     for rec in before or []:
         for run in rec.get("runs", []):
             bmap[(rec["id"], run["prop"])] = classify(rec, run)
-    lines += ["## Every mutant", "", "| id | file | expect | check | outcome" + (" (before)" if before else "") + " | failing inputs / disagreements | wall | what the change is | first replay says |",
-              "|---|---|---|---|---|---|---|---|---|"]
+    lines += ["## Every mutant", "", "| id | file | expect | check | outcome" + (" (before)" if before else "") + " | failing inputs / disagreements | wall | pinned suite | what the change is | first replay says |",
+              "|---|---|---|---|---|---|---|---|---|---|"]
     for rec in sorted(results, key=lambda r: r["id"]):
         exp = ",".join(rec["expect"]) if isinstance(rec["expect"], list) else rec["expect"]
         if rec.get("error"):
-            lines.append(f"| {rec['id']} | {Path(rec['file']).name} | {exp} | - | NOT APPLICABLE: {rec['error']} | | | {rec['why']} | |")
+            lines.append(f"| {rec['id']} | {Path(rec['file']).name} | {exp} | - | NOT APPLICABLE: {rec['error']} | | | | {rec['why']} | |")
+        sk = suite.get(rec["id"])
+        sk = "" if sk is None else ("kills" if sk["suite_kills"] else "survives")
         for run in rec.get("runs", []):
             c = classify(rec, run)
             b = bmap.get((rec["id"], run["prop"]))
             cb = f"{c} ({b})" if b and b != c else c
             lines.append(f"| {rec['id']} | {Path(rec['file']).name} | {exp} | {run['prop']} | {cb} | {run['oracle_failures']} / {run['disagreements']} | "
-                         f"{run['wall_s']} s | {rec['why']} | {(run['says'] or '').replace('|', '/')[:160]} |")
+                         f"{run['wall_s']} s | {sk} | {rec['why']} | {(run['says'] or '').replace('|', '/')[:160]} |")
     Path(path).write_text("\n".join(lines) + "\n")
 
 
@@ -593,6 +660,9 @@ def main():
     ap.add_argument("--before", default=None, help="result file of the run before the fixes (for the before/after table)")
     ap.add_argument("--merge", default=None, help="existing result file: re-run only the selected mutants, keep the other records")
     ap.add_argument("--verify", action="store_true")
+    ap.add_argument("--suite", default=None, metavar="FILE",
+                    help="instead of the checks run the pinned test suite (tools/baseline.py) on each selected mutant; results merged into FILE")
+    ap.add_argument("--not-caught-in", default=None, metavar="RESULTS", help="select the mutants that RESULTS does not show caught with a replay by every check that ran")
     args = ap.parse_args()
     args.repo = Path(args.repo).resolve()
     if args.repo == Path("/repo"):
@@ -623,6 +693,21 @@ def main():
         sys.exit(1 if bad else 0)
     if sh("git", "-C", str(args.repo), "status", "--porcelain", "--untracked-files=no").stdout.strip():
         sys.exit(f"{args.repo} has uncommitted changes")
+    if args.not_caught_in:
+        res = {r["id"]: r for r in json.loads(Path(args.not_caught_in).read_text())["results"]}
+        sel = [m for m in sel if m["id"] in res and any(run["outcome"] != "caught-replay" for run in res[m["id"]]["runs"])]
+    if args.suite:
+        queue, results, lock = list(sel), [], threading.Lock()
+        threads = [threading.Thread(target=suite_worker, args=(k, queue, results, args, lock)) for k in range(min(args.jobs, len(sel)))]
+        for t in threads:
+            t.start()
+        for t in threads:
+            t.join()
+        old = json.loads(Path(args.suite).read_text()) if Path(args.suite).exists() else {}
+        old.update({r["id"]: r for r in results})
+        Path(args.suite).write_text(json.dumps(dict(sorted(old.items())), indent=1) + "\n")
+        print(f"suite kills {sum(1 for r in results if r['suite_kills'])} of {len(results)} mutants")
+        return
     queue, results, lock = list(sel), [], threading.Lock()
     t0 = time.time()
     threads = [threading.Thread(target=worker, args=(k, queue, results, args, lock)) for k in range(min(args.jobs, len(sel)))]
@@ -653,7 +738,8 @@ def main():
         cur = {m["id"]: m["expect"] for m in MUTANTS}
         for r in before or []:      # the before-table uses the FINAL classification of each mutant (see `why` for the revised ones)
             r["expect"] = cur.get(r["id"], r["expect"])
-        write_md(args.md, results, before)
+        sp = VERIF / "tools" / "mutants_A.suite.json"
+        write_md(args.md, results, before, json.loads(sp.read_text()) if sp.exists() else None)
 
 
 if __name__ == "__main__":
